@@ -220,3 +220,7 @@ r('rf-taiko-count-by-hand',
   diff='selftest/seed_diffs/C14-6-corrected.diff', props=['C14', 'C02', 'C12'])
 
 REFACTORS = R
+
+# seed C16-7 as a guard of C02-R8 / C03-R3: there the one-shot calculation AND the gradual next() go through the same conditional forwarder, so gradual == one-shot
+# still holds (only C16 breaks) and neither C02 nor C03 may report it
+r('rf-speed-skip-shared-by-both-paths', diff='selftest/seed_diffs/C16-7.diff', props=['C02', 'C03'])
